@@ -200,7 +200,8 @@ int World::mk_graph(const Op &op) {
         if (!c) continue;
         kids.push_back(c);
         int ng = (int) r.below(3);
-        for (int j = 0; j < ng; j++) { std::string gn = "gc" + std::to_string(j); Source g; if (c.hasSource(gn)) g = c.getSource(gn); else STEP(g = c.createSource(gn, "t")); if (g) grand.push_back(g); }
+        // a grandchild is sometimes named like one of its uncles: names are unique per parent only
+        for (int j = 0; j < ng; j++) { std::string gn = r.chance(1, 3) ? "c" + std::to_string(r.below((uint64_t) nk)) : "gc" + std::to_string(j); Source g; if (c.hasSource(gn)) g = c.getSource(gn); else STEP(g = c.createSource(gn, "t")); if (g) grand.push_back(g); }
     }
     // sections
     Section S; if (f.hasSection(P + "_sec")) S = f.getSection(P + "_sec"); else if (!lite) STEP(S = f.createSection(P + "_sec", "t"));
@@ -211,7 +212,9 @@ int World::mk_graph(const Op &op) {
         if (!c) continue;
         subs.push_back(c);
         if (!c.hasProperty("p")) STEP(c.createProperty("p", Variant((int64_t) i)));
-        if (i == 0 && on() && !c.hasSection("deep")) STEP(c.createSection("deep", "t").createProperty("q", Variant(std::string("v"))));
+        // the nested section is sometimes named like one of its uncles
+        { std::string dn = r.chance(1, 2) ? std::string("deep") : "s" + std::to_string(1 + r.below(2));
+          if (i == 0 && on() && !c.hasSection(dn)) STEP(c.createSection(dn, "t").createProperty("q", Variant(std::string("v")))); }
     }
     if (subs.size() >= 2 && on()) STEP(subs[1].link(subs[0]));
     if (S && subs.size() >= 3 && on()) STEP(S.link(subs[2]));
